@@ -99,7 +99,7 @@ def mean_violations(text, rec):
     per = collections.defaultdict(list)          # (identity, type) -> [group records]
     for c in rec["conf_names"]:
         for g in rec["confs"][c]["groups"]:
-            if g["reported"] and g["key"] is not None:
+            if (g["reported"] or g["bridge"]) and g["key"] is not None:
                 per[(ident(atoms, g["key"]), g["type"])].append(g)
     avr = collections.defaultdict(list)
     for g in rec["confs"]["AVR"]["groups"]:
@@ -108,6 +108,8 @@ def mean_violations(text, rec):
     subset = False
     differ = False
     for k, lst in per.items():
+        if all(g["bridge"] for g in lst):
+            continue                   # bridged everywhere: not reported, nothing to average
         got = avr.get(k, [])
         if len(got) != 1:
             v.append({"clause": "average/one-group-per-site", "detail": "%s %r: %d groups in the average, present in "
@@ -117,14 +119,17 @@ def mean_violations(text, rec):
         n = len(lst)
         if n < len(rec["conf_names"]):
             subset = True
-        if any(g["bridge"] for g in lst) and not all(g["bridge"] for g in lst):
-            continue
-        for f in ("pka", "evol", "eloc", "buried", "nvol", "nloc", "model_pka"):
+        fields = ("pka", "evol", "eloc", "buried", "nvol", "nloc", "model_pka")
+        if any(g["bridge"] for g in lst):
+            fields = ("pka",)          # bridged in some conformations: those count with the fixed value 99.99
+        for f in fields:
             mean = sum(g[f] for g in lst) / float(n)
             if abs(a[f] - mean) > 1e-9:
                 v.append({"clause": "average/mean", "key": a["key"], "detail": "%s %s: average %r, mean over %d "
                           "conformations %r (%r)" % (a["label"], f, a[f], n, mean, [g[f] for g in lst])})
                 break
+        if len(fields) == 1:
+            continue
         for t in observe.DET_TYPES:
             sums = collections.defaultdict(float)
             for g in lst:
@@ -300,6 +305,44 @@ def run_shard(ctx):
     ctx.hypothesis_stage("single-conformation-ligand-copies", gen.structures(max_res=20 if quick else 40,
                                                                              ligand_copies=True), single_body,
                          200 if quick else 3000)
+
+    # a cysteine whose sulfur has two alternate locations, one within and one beyond the S-S bonding distance of its
+    # partner: bridged (99.99) in one conformation, titrating in the other
+    @st.composite
+    def half_bridged(draw):
+        ents, info = draw(gen.bridged_chains(dist=(2000, 2400)))
+        atoms = pdbio.atoms_of(ents)
+        sgs = [a for a in atoms if a.aname == "SG"]
+        if len(sgs) != 2:
+            return None
+        a, b = sgs
+        far = b.copy()
+        k = draw(st.integers(1200, 3000))
+        d = [b.xyz[i] - a.xyz[i] for i in range(3)]
+        nrm = sum(x * x for x in d) ** 0.5
+        far.x, far.y, far.z = (b.x + int(d[0] * k / nrm), b.y + int(d[1] * k / nrm), b.z + int(d[2] * k / nrm))
+        b.alt, far.alt = "A", "B"
+        out = []
+        for e in ents:
+            out.append(e)
+            if e is b:
+                out.append(far)
+        pdbio.renumber_serials(out)
+        return pdbio.write(out), info
+
+    def hb_body(t):
+        if t is None:
+            return
+        text, info = t
+        case = {"pdb": text}
+        v, ci = check_case(case)
+        ci["labels"] = ci.get("labels", []) + ["half-bridged-cysteine"]
+        ci["nontrivial"] = True
+        ci["sample"] = {"structure": "two chains joined by an S-S contact; the second sulfur has a second alternate "
+                        "location beyond bonding distance", **info}
+        ctx.account(case, v, ci)
+
+    ctx.hypothesis_stage("half-bridged-cysteine", half_bridged(), hb_body, 200 if quick else 3000)
 
     names = ["conf-alt-AB-mutant", "conf-alt-AB", "conf-alt-BC", "conf-model-missing-atoms", "conf-model-mutant",
              "4DFR"]
